@@ -3,5 +3,6 @@
 set -e
 cd "$(dirname "$0")"
 /venv/bin/python tools/extract.py >/dev/null
+/venv/bin/python tools/translate.py >/dev/null
 cd lean
 lake build
